@@ -66,6 +66,17 @@ def generate(rng, tier, shard, nshards):
                    tags=(["date:epoch-boundary"] if boundary else []) + (["lon:0/180"] if special_lon else []))
 
 
+def take_apart(d, k):
+    """the caller uses up a dict the library handed out: pops the entry it wanted, overwrites another, or empties it"""
+    if k % 3 == 0:
+        d.pop("epoch", None)
+    elif k % 3 == 1:
+        for key in list(d):
+            d[key] = 1900.0 if isinstance(d[key], float) else "edited by the caller"
+    else:
+        d.clear()
+
+
 def check(case, ctx):
     from ahrs.utils.wmm import WMM
     lat, lon, h, date = case.p["lat"], case.p["lon"], case.p["h"], case.p["date"]
@@ -107,7 +118,10 @@ def check(case, ctx):
             lat2 = float(np.clip(lat + 7.3 * k * (-1) ** k, -88.9, 88.9))
             lon2 = float(((lon + 41.0 * k + 180.0) % 360.0) - 180.0)
             if k == 2:      # a reader in between: looking up the properties of a shipped coefficient file (any epoch) is not a query and changes nothing
-                call(lambda: _reused["w"].get_properties(["WMM2015", "WMM2020", "WMM2025"][int(abs(lat) * 10) % 3] + "/WMM.COF"))
+                # (what the reader hands out is the caller's to keep or take apart: entries popped, overwritten, the dict emptied)
+                rd_ = call(lambda: _reused["w"].get_properties(["WMM2015", "WMM2020", "WMM2025"][int(abs(lat) * 10) % 3] + "/WMM.COF"))
+                if rd_.ok and isinstance(rd_.value, dict):
+                    take_apart(rd_.value, int(abs(lon) * 10))
             o2 = call(lambda: _reused["w"].magnetic_field(lat2, lon2, h, date=None))
             if not ctx.returned(o2, clause="no-exception[date=None]", route="magnetic_field/reused-object"):
                 _reused.pop("w", None)
